@@ -187,6 +187,9 @@ def tok (impl key : String) : String :=
   | none => "?"
 
 def c08 (op : String) (args : List String) (impl : String) : Verdict :=
+  -- a WithTimeout scenario whose time budget was spent before the call began, three times in a row (an overloaded
+  -- machine): no observation of the library
+  if impl.startsWith "INCONCLUSIVE" then { agree := true, prop := "PROP_NA", model := impl, why := "inconclusive" } else
   match op, args with
   | "scenario", code :: id :: auth :: secret :: attrs :: retry :: maxErr :: skip :: peer :: cancel :: reply :: garbage :: rest =>
     if !(rest == [] || rest == ["std"] || rest == ["wrap"]) then bad "scenario-args" else
